@@ -159,7 +159,7 @@ def replay(case, ctx):
 
 
 def plan(tier, seed):
-    n, per = (16, 320) if tier == "quick" else (16, 20000)
+    n, per = (16, 2500) if tier == "quick" else (16, 20000)
     return [{"kind": "null", "n": per} for _ in range(n)]
 
 
